@@ -3,11 +3,15 @@ C38 — Sub-scheduler runs are equivalent to direct evaluation.
 
 `subrun_equiv` (full strength, every task table, every expression, both `new_execution` settings): through
 `subrun` an expression has exactly the outcomes it has when evaluated directly.  The model of `subrun`
-(`Eval.subrun*` in Model/EvalCore) is not "evaluate e": the inner scheduler's outcome is packed into the
-record `_subrun_root_task` returns (`{"result": v}` / `{"error": err}`, or the error is raised when a new
-execution was started), the OUTER scheduler evaluates that record like any task result, and `subrun.then`
-unwraps it; the theorem needs `result_isValue` + `value_unique` (results contain no expression, evaluating a
-value again is the identity).
+(`Eval.subrun*` in Model/EvalCore) is not "evaluate e": a value the inner scheduler produced is packed into the
+record `_subrun_root_task` returns (`{"result": v, ...}`), the OUTER scheduler evaluates that record like any task
+result, and `subrun.then` unwraps it; the theorem needs `result_isValue` + `value_unique` (results contain no
+expression, evaluating a value again is the identity).  An inner error makes the `_subrun_root_task` job fail
+(new execution: `run` raises; extended execution: the error returned by `extend_run` is re-raised inside the task —
+the model mirrors the repaired code, see findings_proposed/C12-subrun-error-recorded-as-success.fix.diff; before
+the repair the error travelled back inside a *successful* result record, with the same outcome for the caller
+but with a CallNode recorded as a success, which `subrun_shallow_replays_ultimate` then replays in a later
+execution without running the failed call again — the C12 finding).
 `subrun_never_single`, `subrun_full_check_runs_again`, `subrun_shallow_replays_ultimate`: the cache options
 `subrun` gives `_subrun_root_task` (`allowed_cache_results = {CSE, ULTIMATE}`) on the lookup model
 `Model/CacheLookup` — no step serves the subrun from the Evaluation (single reduction) table.
@@ -44,23 +48,7 @@ theorem subrun_equiv (lib : Lib) (e : Expr) (ne : Bool) (r : Out) :
       have hd : isValue (.dict [.str "result"] [v]) = true := by
         simp [isValue, allValues, hv, keysOk, simpleKeys, simpleKey, nodupKeys]
       exact absurd (value_unique _ hd _ h2) (by simp)
-    | subrunErrNew h1 => exact h1
-    | subrunErrExt h1 h2 =>
-      rename_i x k y
-      have hd : isValue (.dict [.str "error"] [.errv x]) = true := by
-        simp [isValue, allValues, keysOk, simpleKeys, simpleKey, nodupKeys]
-      have := value_unique _ hd _ h2
-      injection this with this
-      injection this with hk hvv
-      injection hvv with hvv _
-      injection hvv with hvv
-      subst hvv
-      exact h1
-    | subrunErrExtErr h1 h2 =>
-      rename_i x y
-      have hd : isValue (.dict [.str "error"] [.errv x]) = true := by
-        simp [isValue, allValues, keysOk, simpleKeys, simpleKey, nodupKeys]
-      exact absurd (value_unique _ hd _ h2) (by simp)
+    | subrunErr h1 => exact h1
   · intro h
     cases r with
     | ok v =>
@@ -68,13 +56,7 @@ theorem subrun_equiv (lib : Lib) (e : Expr) (ne : Bool) (r : Out) :
       have hd : isValue (.dict [.str "result"] [v]) = true := by
         simp [isValue, allValues, hv, keysOk, simpleKeys, simpleKey, nodupKeys]
       exact Eval.subrunOk h (value_self _ hd)
-    | err x =>
-      cases ne with
-      | true => exact Eval.subrunErrNew h
-      | false =>
-        have hd : isValue (.dict [.str "error"] [.errv x]) = true := by
-          simp [isValue, allValues, keysOk, simpleKeys, simpleKey, nodupKeys]
-        exact Eval.subrunErrExt h (value_self _ hd)
+    | err x => exact Eval.subrunErr h
     | unk => exact absurd rfl h.ne_unk
 
 
